@@ -12,14 +12,14 @@ def run(ctx):
     ctx.assumptions += sessin.ASSUME + ['the connection is connected; outbound traffic is captured at Session::send, so _last_sent is not moved by the tick itself',
                                         'second-granular supervisor: "more than H+20%" is required to fire at the latest one second after the exact threshold and never before it']
     for ticks in (1, 2):
-        ctx.add(Harness('C22_tick%d' % ticks, VERIF + '/harness/C22_tick.c', defines=defs + ['TICKS=%d' % ticks, 'VF_MAXCOPY=16', 'VF_CLOCKMAX=6'], unwind=4,
-                        unwindset=sessin.US + ['count.0:%d' % 5], timeout=900, backend='default', functions=FUN, stubs=sessin.STUBS,
+        ctx.add(Harness('C22_tick%d' % ticks, VERIF + '/harness/C22_tick.c', defines=defs + ['TICKS=%d' % ticks, 'VF_MAXCOPY=40', 'VF_CLOCKMAX=6'], unwind=12,
+                        unwindset=sessin.US, timeout=900, backend='default', functions=FUN, stubs=sessin.STUBS,
                         bounds='%d supervision tick(s); H in 1..3600 s; every clock reading an arbitrary non-decreasing instant below 2^62 ns; last-sent/last-received instants arbitrary (not after the first reading); '
                                '%s; initiator or acceptor connection' % (ticks, 'any established state' if ticks == 1 else 'tick 1 from st_continuous sends the TestRequest, tick 2 arbitrary later'),
                         desc='supervision clauses of C22 over the real heartbeat_service'))
     for trlen in ((2,) if ctx.tier == 'quick' else (1, 2)):
-        ctx.add(Harness('C22_inbound_l%d' % trlen, VERIF + '/harness/C22_inbound.c', defines=defs + ['TRLEN=%d' % trlen, 'VF_MAXCOPY=16'], unwind=4,
-                        unwindset=sessin.US + ['digits_value.0:8', 'raw_seq.0:8', 'main.0:8'], timeout=900, functions=FUN_IN, stubs=sessin.STUBS,
+        ctx.add(Harness('C22_inbound_l%d' % trlen, VERIF + '/harness/C22_inbound.c', defines=defs + ['TRLEN=%d' % trlen, 'VF_MAXCOPY=40'], unwind=12,
+                        unwindset=sessin.US, timeout=900, functions=FUN_IN, stubs=sessin.STUBS,
                         bounds='one in-sequence Heartbeat or TestRequest (TestReqID %d arbitrary bytes) processed in any established state, expected number 1..9999999' % trlen,
                         desc='inbound TestRequest/Heartbeat clauses of C22 over the real process/handle_test_request/handle_heartbeat'))
     ctx.solve(jobs=4)
